@@ -1412,7 +1412,13 @@ func (ls *LState) NewThread() (*LState, context.CancelFunc) {
 	var f context.CancelFunc = nil
 	if ls.ctx != nil {
 		thread.mainLoop = mainLoopWithContext
-		thread.ctx, f = context.WithCancel(ls.ctx)
+		parent := ls.ctx
+		if ls.ctxCancelFn != nil && ls.G.MainThread != nil && ls.G.MainThread.ctx != nil {
+			// ls is itself a coroutine: its own context is cancelled when it dies (kill), but a
+			// coroutine it creates may outlive it and must only stop when the state's context is done
+			parent = ls.G.MainThread.ctx
+		}
+		thread.ctx, f = context.WithCancel(parent)
 		thread.ctxCancelFn = f
 	}
 	return thread, f
